@@ -53,4 +53,38 @@ theorem sumAxis_length : ∀ (sh : List Nat) (k : Nat) (d : List Int), k < sh.le
       simp only [List.length_take, List.length_drop, hd]
       omega
 
+/-! ### `is_call`: a comparison in front of the first parenthesis -/
+
+theorem functionMatch_name (s n a : Str) (h : functionMatch s = some (n, a)) : n = s.takeWhile (· ≠ '(') := by
+  unfold functionMatch at h
+  split at h
+  · simp at h
+  · split at h
+    · simp at h
+    · simp only [Option.some.injEq, Prod.mk.injEq] at h; exact h.1.symm
+
+theorem takeWhile_lhs (lhs rest : Str) (c : Char) (hc : c ≠ '(') (hl : '(' ∉ lhs) :
+    (lhs ++ c :: rest).takeWhile (· ≠ '(') = lhs ++ c :: rest.takeWhile (· ≠ '(') := by
+  induction lhs with
+  | nil => simp [hc]
+  | cons x xs ih =>
+    have hx : x ≠ '(' := fun e => hl (by simp [e])
+    have hxs : '(' ∉ xs := fun e => hl (by simp [e])
+    have := ih hxs
+    simp only [List.cons_append, List.takeWhile_cons, hx, ne_eq, not_false_eq_true, decide_true, ite_true]
+    rw [← this]
+
+theorem isCallSel_comparison (lhs rest : Str) (c : Char) (hc : c = '<' ∨ c = '>' ∨ c = '=')
+    (hl : '(' ∉ lhs) : isCallSel (lhs ++ c :: rest) = false := by
+  unfold isCallSel
+  cases h : functionMatch (lhs ++ c :: rest) with
+  | none => rfl
+  | some na =>
+    obtain ⟨n, a⟩ := na
+    have hn := functionMatch_name _ _ _ h
+    have hc' : c ≠ '(' := by rcases hc with h | h | h <;> simp [h]
+    rw [takeWhile_lhs lhs rest c hc' hl] at hn
+    simp only [hn, relopSearch, Bool.not_eq_false', List.any_append, List.any_cons]
+    rcases hc with h | h | h <;> simp [h]
+
 end Pydap.Ssf
